@@ -20,7 +20,7 @@ RULE = ("valid, single-edit-mutated and multi-statement inputs x sampled dialect
         ">= 1 unsupported message; distinct = distinct (text, dialect, max_errors)")
 ASSUMPTIONS = ["TokenError is a tokenizer outcome and only has to be identical at all levels"]
 SPEC = {
-    "quick": {"shards": 16, "time_cap": 150, "statements": 2400},
+    "quick": {"shards": 16, "time_cap": 400, "statements": 2400},
     "thorough": {"shards": 16, "time_cap": 1500, "statements": 25000},
 }
 
